@@ -4,7 +4,7 @@ Each slot is a copy of /verif (with its build output) plus a scratch worktree of
 /repo itself is never touched.  Updates seeded/<id>/meta.json (confirmed_by_integrator) and prints one line per seed."""
 import json, os, queue, shutil, subprocess, sys, threading
 VERIF = os.path.dirname(os.path.dirname(os.path.abspath(__file__)))
-ROOT = '/tmp/ps'
+ROOT = os.environ.get("PARSEED_ROOT", "/tmp/ps")
 
 
 def sh(cmd, **kw):
